@@ -65,7 +65,7 @@ Stats stats_of(const AnnSet& s, const std::vector<Orphan>& orphans)
 } // namespace
 
 VERIF_TARGET(c35_orphanage, nullptr, 24, 900,
-             "histories of <= 250 operations over 3-10 peers on an orphanage with small limits (latency 8-80, reserved usage 1.5k-40k per peer; 1 in 12 cases "
+             "histories of <= 250 operations over 3-10 peers on an orphanage with small limits (latency 12-80, reserved usage 1.5k-40k per peer; 1 in 12 cases "
              "the production limits with orphans up to 300 inputs / 390k weight): AddTx (one 'whale' peer favoured; orphans of 1-60 inputs from a shared "
              "outpoint pool, padded outputs, optional witness twin with the same txid), AddAnnouncer, EraseTx, EraseForPeer, EraseForBlock (block txs spending "
              "pool outpoints), AddChildrenToWorkSet / GetTxToReconsider; oracle = announcement-set refinement model (subset, exact removal when no limit is "
@@ -74,7 +74,7 @@ VERIF_TARGET(c35_orphanage, nullptr, 24, 900,
 {
     // ---- configuration
     const bool production_limits = s.range<unsigned>(0, 11) == 11;
-    const unsigned max_lat = production_limits ? 3000u : s.pick<unsigned>({8u, 12u, 20u, 33u, 50u, 80u});
+    const unsigned max_lat = production_limits ? 3000u : s.pick<unsigned>({12u, 16u, 20u, 33u, 50u, 80u}) /* >= max peers (10): a per-peer share of 0 is outside the supported configuration (assert in GetDosScore) */;
     const int64_t reserved = production_limits ? 404000 : s.pick<int64_t>({1500, 3000, 6000, 12000, 40000});
     std::unique_ptr<node::TxOrphanage> orph = production_limits ? node::MakeTxOrphanage() : node::MakeTxOrphanage(max_lat, reserved);
     const int npeers = s.range<int>(3, 10);
